@@ -17,7 +17,8 @@
 //   <unmove> = <move>:<capturedPiece>:<castleMask>:<epSquare>   (":hmc<k>" appended when the clock field is not 0)
 //
 // Fields of the R line (all decided by the real code, the extracted Spec re-decides a subset in props/c15.py):
-//   req       completeness is required at (P, m): P has valid piece counts, its e.p. square survives fixupEPSquare and
+//   req       completeness is required at (P, m): P has valid piece counts, its e.p. square survives fixupEPSquare, the
+//             square behind it is empty, and
 //             (incl, or P has no e.p. square, or m is the e.p. capture)
 //   found     number of listed un-moves equal to (m, {captured piece, castle mask, e.p. square of P, 0})
 //   restored  unMakeMove(Q, m, that undo info) == P with halfMoveClock 0 (Position::operator==, all hashes)
@@ -151,6 +152,14 @@ static bool epStable(const Position& pos) {
     return c.getEpSquare() == pos.getEpSquare();
 }
 
+// the pawn that made the double step came from the square behind the e.p. square: empty in every position
+// reached by play (TextIO::readFEN does not look at that square; RevMoveGen::getEpMask does)
+static bool epOriginEmpty(const Position& pos) {
+    if (!pos.getEpSquare().isValid()) return true;
+    int o = pos.getEpSquare().asInt() + (pos.isWhiteMove() ? 8 : -8);
+    return o >= 0 && o < 64 && pos.getPiece(Square(o)) == Piece::EMPTY;
+}
+
 static bool isKing(int p) { return p == Piece::WKING || p == Piece::BKING; }
 static bool isPawn(int p) { return p == Piece::WPAWN || p == Piece::BPAWN; }
 static bool isRook(int p) { return p == Piece::WROOK || p == Piece::BROOK; }
@@ -225,7 +234,7 @@ static void evalLine(const std::string& line) {
         std::cout << "X not-legal " << mvStr(m) << '\n';
         return;
     }
-    const bool pcv = countsValid(P), pfix = epStable(P);
+    const bool pcv = countsValid(P), pfix = epStable(P) && epOriginEmpty(P);
     const bool epCapture = isPawn(P.getPiece(m.from())) && P.getEpSquare().isValid() && m.to() == P.getEpSquare();
     Position Q(P);
     UndoInfo ui0;
